@@ -146,7 +146,7 @@ def traced(cls, ctl):
 
 
 # ------------------------------------------------------------------ one call
-def call_assemble(vcls, mclss, vrec, mrecs, id_, name, fault=None, prequery=False):
+def call_assemble(vcls, mclss, vrec, mrecs, id_, name, fault=None, prequery=False, wrappers=None):
     """performs vector.assemble(*modules) on the given record objects; returns the out dict"""
     from moclo import errors
     from moclo.record import CircularRecord
@@ -158,8 +158,11 @@ def call_assemble(vcls, mclss, vrec, mrecs, id_, name, fault=None, prequery=Fals
         vcls = traced(vcls, ctl)
         mclss = [traced(c, ctl) for c in mclss]
     try:
-        vec = vcls(vrec)
-        mods = [c(r) for c, r in zip(mclss, mrecs)]
+        if wrappers is not None and not fault:      # the very same wrapper objects as in an earlier call of this event
+            vec, mods = wrappers
+        else:
+            vec = vcls(vrec)
+            mods = [c(r) for c, r in zip(mclss, mrecs)]
         KEEP.extend([vec] + mods)
         if prequery:          # the user inspects the very wrappers that are assembled afterwards
             for w in [vec] + mods:
@@ -223,8 +226,11 @@ def transform_spec(spec, by, arg=None):
             s["seq"] = seq
             s["feats"] = spec["feats"]
     elif by == "rc":
-        s["seq"] = dna.rc(seq)
-        s["feats"] = []
+        if arg == "api":          # record.reverse_complement() with its default arguments (id, name are NOT carried over)
+            s["_rc_api"] = True
+        else:
+            s["seq"] = dna.rc(seq)
+            s["feats"] = []
     elif by == "case":
         mask = arg
         s["seq"] = "".join(c.lower() if mask[i % len(mask)] == "1" else c.upper() for i, c in enumerate(seq))
@@ -246,6 +252,8 @@ def build_inputs(r):
         rec = mk_record(spec)
         if spec.get("_rotate_api"):
             rec = rec >> spec["_rotate_api"]
+        if spec.get("_rc_api"):
+            rec = rec.reverse_complement()
         return rec
     return vcls, mclss, mk(r["vector"]), [mk(m) for m in r["modules"]]
 
@@ -259,11 +267,22 @@ def exec_assembly(r):
     from . import enz as enzmod
     s, o, k = enzmod.geometry(cutter)
     inputs = [vrec] + mrecs
+    try:                       # one wrapper per input for the whole event (warm-up call, logged call, repeated call)
+        wr = (vcls(vrec), [c(x) for c, x in zip(mclss, mrecs)])
+    except Exception:  # noqa
+        wr = None
+    if r.get("warmup"):        # the logged call is the second one on the same objects
+        call_assemble(vcls, mclss, vrec, mrecs, r.get("id"), r.get("name"), None, wrappers=wr)
+    if r.get("edit_between"):  # the feature tables of the inputs are edited in place between the two calls
+        from Bio.SeqFeature import FeatureLocation as _FL, SeqFeature as _SF
+        for rec, extra in zip(inputs, r["edit_between"]):
+            if rec.features:
+                del rec.features[0]
+            for (a, b, st) in extra:
+                rec.features.append(_SF(_FL(a, b, strand=st), type="misc_feature", qualifiers={"label": ["added-later"]}))
     before = [snapshot(x) for x in inputs]
     proj_in = [rec_proj(x) for x in inputs]
-    if r.get("warmup"):        # the logged call is the second one on the same objects
-        call_assemble(vcls, mclss, vrec, mrecs, r.get("id"), r.get("name"), None)
-    out = call_assemble(vcls, mclss, vrec, mrecs, r.get("id"), r.get("name"), r.get("fault"), prequery=bool(r.get("prequery")))
+    out = call_assemble(vcls, mclss, vrec, mrecs, r.get("id"), r.get("name"), r.get("fault"), prequery=bool(r.get("prequery")), wrappers=wr)
     prod = out.pop("_product", None)
     after = [snapshot(x) for x in inputs]
     ev = {"ev": "Assemble", "enz": {"site": dna.enc(s), "off": o, "ovh": k},
@@ -274,7 +293,7 @@ def exec_assembly(r):
           "rep": {"has": False, "out": {}, "after": []}, "twin": {"by": "none", "out": {}}}
     # C07: the same call again on the very same objects
     if r.get("repeat"):
-        out2 = call_assemble(vcls, mclss, vrec, mrecs, r.get("id"), r.get("name"), None)
+        out2 = call_assemble(vcls, mclss, vrec, mrecs, r.get("id"), r.get("name"), None, wrappers=wr)
         out2.pop("_product", None)
         ev["rep"] = {"has": True, "out": out2, "after": [snapshot(x) for x in inputs]}
     tw = r.get("twin")
